@@ -58,7 +58,7 @@ STUB = ['event loop + clocks (monotonic and wall)', 'TCP', 'DNS', 'executor',
 PROBES = ['accept_expected', 'reject_expected', 'cert_cred', 'plain_cred',
           'hashed_entry', 'wildcard_entry', 'negated_entry', 'cidr_entry',
           'port_form', 'revoked_hit', 'clock_step', 'lying_server',
-          'host_spelled_in_capitals',
+          'host_spelled_in_capitals', 'entry_spelled_in_capitals',
           'cert_time_reject', 'alias_target']
 
 HOST, ALIAS, ADDR = 'server.example.com', 'alias.example.org', '10.1.2.3'
@@ -202,6 +202,8 @@ def gen_plan(rng):
         'port': port, 'target': target, 'entries': entries, 'cred': cred,
         'clock_step': rng.choice([0, 0, 0, 5, -5, 4000, -4000]),
         'spelling': rng.choice([None, None, None, 'upper', 'mixed']),
+        # ... and so are the names in the file
+        'entry_spelling': rng.choice([None, None, None, 'upper', 'mixed']),
     }
 
 
@@ -245,7 +247,8 @@ def valid_plan(plan):
         if c['kind'] == 'cert' and c['before'] <= c['after']:
             return False
 
-        if plan.get('spelling') not in (None, 'upper', 'mixed'):
+        if plan.get('spelling') not in (None, 'upper', 'mixed') or \
+                plan.get('entry_spelling') not in (None, 'upper', 'mixed'):
             return False
 
         return c['kind'] in ('plain', 'cert', 'lying')
@@ -255,6 +258,11 @@ def valid_plan(plan):
 
 # -- known_hosts text from the structured entries ------------------------------------
 
+def respell(name, how):
+    return name.upper() if how == 'upper' else \
+        ''.join(c.upper() if i % 2 else c for i, c in enumerate(name))
+
+
 def render_known_hosts(plan):
     lines = []
 
@@ -263,6 +271,12 @@ def render_known_hosts(plan):
 
         for p in e['pats']:
             s = p['p']
+
+            if plan.get('entry_spelling') and p['kind'] in ('host',
+                                                            'wild_host'):
+                # the same names written otherwise (hashed entries hold the
+                # lower case form)
+                s = respell(s, plan['entry_spelling'])
 
             if p['portform']:
                 s = '[%s]:%d' % (s, plan['port'])
@@ -397,10 +411,14 @@ def run_plan(plan, sched_seed=None, sched_replay=None):
     if plan.get('spelling') and plan['target'] != 'addr':
         # host names are case-insensitive: the same host, spelled otherwise
         # (known_hosts lines are written in lower case)
-        target = target.upper() if plan['spelling'] == 'upper' else \
-            ''.join(c.upper() if i % 2 else c for i, c in enumerate(target))
+        target = respell(target, plan['spelling'])
         net.dns[target] = [ADDR]
         sim.probes['host_spelled_in_capitals'] += 1
+
+    if plan.get('entry_spelling') and any(
+            p['kind'] in ('host', 'wild_host') for e in plan['entries']
+            for p in e['pats']):
+        sim.probes['entry_spelled_in_capitals'] += 1
 
     res = {'conn': None, 'exc': None, 'peer': None, 't_connect': None}
     now0 = int(seams.wall_now())
